@@ -282,7 +282,7 @@ func c17Labels(kvs types.StateKeyVals, svcs []c17Svc) map[types.StateKey]string 
 	for _, kv := range kvs {
 		if kv.Key[0] >= 1 && kv.Key[0] <= 16 && kv.Key == m.C(types.U8(kv.Key[0])) {
 			out[kv.Key] = "component"
-		} else if m.IsServiceInfoKey(kv.Key) {
+		} else if c17IsInfoKey(kv.Key) {
 			out[kv.Key] = "service info"
 		} else {
 			out[kv.Key] = "service entry"
@@ -316,6 +316,26 @@ func c17Labels(kvs types.StateKeyVals, svcs []c17Svc) map[types.StateKey]string 
 	}
 	return out
 }
+
+// c17IsInfoKey: C(255, s) = [255, n0, 0, n1, 0, n2, 0, n3, 0, 0, ...] — the harness' own test, independent of
+// the repository's IsServiceInfoKey.
+func c17IsInfoKey(k types.StateKey) bool {
+	if k[0] != 0xFF {
+		return false
+	}
+	for i := 2; i < len(k); i++ {
+		if (i > 7 || i%2 == 0) && k[i] != 0 {
+			return false
+		}
+	}
+	return true
+}
+
+// c17CollisionIDs: service ids whose little-endian bytes, interleaved into the keys of the service's
+// storage / preimage / lookup entries [n0,h0,n1,h1,n2,h2,n3,h3,…], put 0xFF (the service-info chapter),
+// 1..16 (the component chapters) or zeros where the special key classes have them.
+var c17CollisionIDs = []uint32{255, 0xFF00, 0xFF0000, 0xFF000000, 0xFFFFFFFF, 0xFF00FF, 0xFFFF, 0x100, 0,
+	1, 2, 3, 4, 5, 6, 7, 8, 9, 10, 11, 12, 13, 14, 15, 16}
 
 func c17Shape(svcs []c17Svc) string {
 	n := map[string]int{}
@@ -470,6 +490,31 @@ func TestVerif_C17(t *testing.T) {
 			c17RunConfig(r, append([]cgenDev(nil), devs...), c17FixedSvc, "comp", false, nil)
 			return true
 		})
+	}
+
+	// (iv) service ids that collide with the special key classes, each owning a storage entry, a
+	// preimage, its lookup and an unrelated lookup: alone (all 120 orders, before/after) and all
+	// together in one state (a few orders)
+	full := []c17Entry{{"st", 1, 0}, {"pre", 1, 0}, {"lk", 1, 2}, {"lk", 3, 1}}
+	for _, id := range c17CollisionIDs {
+		idx++
+		if r.Mine(idx) {
+			c17RunConfig(r, nil, []c17Svc{{id, full}}, "delta", true, nil)
+		}
+		for _, e := range [][]c17Entry{{{"st", 0, 0}}, {{"pre", 2, 0}}, {{"lk", 3, 0}}, {{"st", 2, 0}, {"pre", 0, 0}, {"lk", 0, 3}}} {
+			idx++
+			if r.Mine(idx) {
+				c17RunConfig(r, nil, []c17Svc{{id, e}}, "delta", true, nil)
+			}
+		}
+	}
+	idx++
+	if r.Mine(idx) {
+		var allSvcs []c17Svc
+		for _, id := range c17CollisionIDs {
+			allSvcs = append(allSvcs, c17Svc{id, full})
+		}
+		c17RunConfig(r, nil, allSvcs, "delta", false, nil)
 	}
 
 	// (iii) several attributed lookups per import, every combination of timeslot-set lengths 0..3
